@@ -1,0 +1,87 @@
+//go:build verif
+
+// Contracts checked by /verif (gocv). Comment-only; compiled only with -tags verif.
+
+package engine
+
+//@ typeinv *engine.compatibilityEngine e: e.prom != nil && e.queries != nil
+
+// triggerFallback: exactly the errors that identify themselves as unsupported / not implemented,
+// and only when fallback is enabled (C08).
+//@ func (*compatibilityEngine).triggerFallback
+//@   requires e != nil
+//@   assigns nothing
+//@   ensures[C08] fallback-iff-unsupported: result == (!e.disableFallback && err != nil && (err.isNS || err.isNI))
+
+// newErrResult: the first error sticks (C15).
+//@ func newErrResult
+//@   ensures[C15] error-recorded: result != nil && (err != nil ==> result.Err != nil) &&
+//@       (r != nil && old(r.Err) != nil ==> result.Err == old(r.Err)) && (r != nil && old(r.Err) == nil ==> result.Err == err)
+//@   ensures same-result: r != nil ==> result == r
+
+//@ func explain
+//@   trusted debug output only (writes to the caller-supplied DebugWriter); recursion over the operator tree
+
+// NewInstantQuery / NewRangeQuery (C08): unsupported constructs are detected at creation from the
+// expression alone; with fallback the very same arguments go to the Prometheus engine; the query
+// counter is bumped once with the path taken. C02: the lookback delta is the per-query one when
+// given, else the engine's. C01/C07: the plan is built for the window [ts,ts] step 0, resp.
+// [start,end] step.
+//@ func (*compatibilityEngine).NewInstantQuery
+//@   requires e != nil && e.lookbackDelta > 0
+//@   assigns nothing
+//@   at logicalplan.New assert[C01] plan-window: $mint == ts && $maxt == ts
+//@   at execution.New assert[C01,C07] instant-window: $mint == ts && $maxt == ts && $step == 0 && $queryable == q
+//@   at execution.New assert[C02] lookback-per-query-else-engine: $lookbackDelta == ite(opts != nil && opts.LookbackDelta > 0, opts.LookbackDelta, e.lookbackDelta)
+//@   at promql.(*Engine).NewInstantQuery assert[C08] fallback-same-arguments: $ng == e.prom && $q == q && $opts == opts && $qs == qs && $ts == ts &&
+//@       !e.disableFallback && callres("execution.New", 1, 1) != nil &&
+//@       (callres("execution.New", 1, 1).isNS || callres("execution.New", 1, 1).isNI)
+//@   at prometheus.(*CounterVec).WithLabelValues assert[C08] counter-label-is-path-taken: len($lvs) == 1 &&
+//@       (($lvs[0] == "true") == (!e.disableFallback && callres("execution.New", 1, 1) != nil &&
+//@           (callres("execution.New", 1, 1).isNS || callres("execution.New", 1, 1).isNI))) &&
+//@       ($lvs[0] == "true" || $lvs[0] == "false") && ncalls("prometheus.(*CounterVec).WithLabelValues") == 0
+//@   ensures[C08] counted-once: callres("parser.ParseExpr", 1, 1) == nil ==>
+//@       ncalls("prometheus.Counter.Inc") == 1
+//@   ensures[C08] parse-error-not-counted: callres("parser.ParseExpr", 1, 1) != nil ==>
+//@       result1 != nil && ncalls("prometheus.Counter.Inc") == 0
+//@   ensures[C08] unsupported-rejected-when-fallback-disabled: ncalls("execution.New") == 1 && e.disableFallback && callres("execution.New", 1, 1) != nil ==>
+//@       result1 == callres("execution.New", 1, 1) && result0 == nil
+//@   ensures[C08] fallback-result-is-prometheus-query: ncalls("promql.(*Engine).NewInstantQuery") == 1 ==>
+//@       result0 == callres("promql.(*Engine).NewInstantQuery", 1, 0) &&
+//@       result1 == callres("promql.(*Engine).NewInstantQuery", 1, 1)
+//@   ensures[C01,C19] native-query-fields: result1 == nil && ncalls("promql.(*Engine).NewInstantQuery") == 0 ==>
+//@       istype(result0, *engine.compatibilityQuery) && fresh(result0) &&
+//@       cast(result0, *engine.compatibilityQuery).engine == e && cast(result0, *engine.compatibilityQuery).ts == ts &&
+//@       cast(result0, *engine.compatibilityQuery).t == engine.InstantQuery &&
+//@       cast(result0, *engine.compatibilityQuery).expr == callres("parser.ParseExpr", 1, 0) &&
+//@       cast(result0, *engine.compatibilityQuery).Query.exec == callres("execution.New", 1, 0) &&
+//@       isnil(cast(result0, *engine.compatibilityQuery).cancel)
+
+//@ func (*compatibilityEngine).NewRangeQuery
+//@   requires e != nil && e.lookbackDelta > 0
+//@   requires step >= 0
+//@   assigns nothing
+//@   at logicalplan.New assert[C01] plan-window: $mint == start && $maxt == end
+//@   at execution.New assert[C01,C07] range-window: $mint == start && $maxt == end && $step == step && $queryable == q
+//@   at execution.New assert[C02] lookback-per-query-else-engine: $lookbackDelta == ite(opts != nil && opts.LookbackDelta > 0, opts.LookbackDelta, e.lookbackDelta)
+//@   at promql.(*Engine).NewRangeQuery assert[C08] fallback-same-arguments: $ng == e.prom && $q == q && $opts == opts && $qs == qs &&
+//@       $start == start && $end == end && $interval == step && !e.disableFallback && callres("execution.New", 1, 1) != nil &&
+//@       (callres("execution.New", 1, 1).isNS || callres("execution.New", 1, 1).isNI)
+//@   at prometheus.(*CounterVec).WithLabelValues assert[C08] counter-label-is-path-taken: len($lvs) == 1 &&
+//@       (($lvs[0] == "true") == (!e.disableFallback && callres("execution.New", 1, 1) != nil &&
+//@           (callres("execution.New", 1, 1).isNS || callres("execution.New", 1, 1).isNI))) &&
+//@       ($lvs[0] == "true" || $lvs[0] == "false") && ncalls("prometheus.(*CounterVec).WithLabelValues") == 0
+//@   ensures[C08] range-type-check-first: callres("parser.ParseExpr", 1, 1) == nil &&
+//@       callres("parser.ParseExpr", 1, 0).Type() != parser.ValueTypeVector &&
+//@       callres("parser.ParseExpr", 1, 0).Type() != parser.ValueTypeScalar ==>
+//@       result1 != nil && result0 == nil && ncalls("execution.New") == 0 && ncalls("prometheus.Counter.Inc") == 0
+//@   ensures[C08] unsupported-rejected-when-fallback-disabled: ncalls("execution.New") == 1 && e.disableFallback && callres("execution.New", 1, 1) != nil ==>
+//@       result1 == callres("execution.New", 1, 1) && result0 == nil
+//@   ensures[C08] fallback-result-is-prometheus-query: ncalls("promql.(*Engine).NewRangeQuery") == 1 ==>
+//@       result0 == callres("promql.(*Engine).NewRangeQuery", 1, 0) &&
+//@       result1 == callres("promql.(*Engine).NewRangeQuery", 1, 1)
+//@   ensures[C01,C19] native-query-fields: result1 == nil && ncalls("promql.(*Engine).NewRangeQuery") == 0 ==>
+//@       istype(result0, *engine.compatibilityQuery) && fresh(result0) &&
+//@       cast(result0, *engine.compatibilityQuery).engine == e && cast(result0, *engine.compatibilityQuery).t == engine.RangeQuery &&
+//@       cast(result0, *engine.compatibilityQuery).expr == callres("parser.ParseExpr", 1, 0) &&
+//@       cast(result0, *engine.compatibilityQuery).Query.exec == callres("execution.New", 1, 0)
